@@ -8,13 +8,21 @@ CFG = dict(
                "within the size limits) is, for EVERY peer clock and every fresh-or-consistent peer state, classified accept or ignore — never reject, never a panic; "
                "a fresh peer that knows the validator accepts it inside the slot/round window; arithmetic theorem: a round-r message sent at or after the real round "
                "timer's deadline for round r-1 (regenerated QuickTimeoutThreshold/QuickTimeout/SlowTimeout, any non-negative base delay) is estimated at round >= r by "
-               "currentEstimatedRound and passes the validator's round window. NOT proved: that the node's emission code establishes these guarantees (needs the QBFT "
-               "node model); checked empirically on every message emitted by real multi-operator runs. The timing assumption is a hypothesis.",
-    level_note="partial: discharge of HonestEmission from the node model is left to the QBFT engine; timing assumptions are hypotheses; the peer's duty store is assumed "
+               "currentEstimatedRound and passes the validator's round window. Ssv/Props/C10Emission.lean DISCHARGES the emission guarantees from the executable QBFT node model (translation toValidationMsg): "
+               "C10_node_emissions_not_rejected — every message (.bcast or decided broadcast) emitted by a correct operator in any reachable state of the multi-node system, "
+               "validated by a consistent peer at any receive time, is never reject and never a panic; single own signer, identifier, valid type, round >= 1, root = hash, "
+               "leader-only proposals (the node's and the validator's round-robin models proved equal incl. int64 wrap), justified proposals pass the very "
+               "isProposalJustification the validator calls, prepare/commit roots, round-change lock data, decided aggregates sorted with >= quorum distinct committee "
+               "signers, and at most one prepare/commit per round per operator are all derived. Remaining explicit hypotheses: TimelyAction (a round-change quorum is "
+               "completed in its own round — the property's timing assumption; WITHOUT it the statement is refuted by a concrete all-correct 4-operator schedule, "
+               "C10_untimed_emissions_not_rejected_full_refuted: a leader still one round behind emits a proposal for its current round justified for a later one and "
+               "is rejected SignerNotLeader), GatedAction (stored commits carry no justification fields), EnvelopeOk, ShareMatches, PeerConsistent. Also checked "
+               "empirically on every message emitted by real multi-operator runs.",
+    level_note="partial: the timing assumption (TimelyAction) and the envelope/share/peer-consistency side conditions are hypotheses; the peer's duty store is assumed "
                "to know the proposer duty (DESIGN §9). Trusted: as C09.",
     technique="Lean 4 proof (reject-freeness of every guard under the emission predicate; timer/round-window arithmetic) + real multi-operator QBFT runs whose "
               "every broadcast is validated by a fresh real validator in emission order",
-    lean=["Ssv.Props.C10"],
+    lean=["Ssv.Props.C10", "Ssv.Props.C10Emission"],
     engines=[dict(harness="validation", driver="m_validation", args=["-mode", "c10"], case_delim="reset",
                   n_quick=1000, n_thorough=15000, thorough_seeds=2, n_search=2500, search_seeds=3)],
     rule="real runs: n real QBFT controllers (n=4, every 4th run n=7) with real BLS share keys and signature verification, all five consensus roles + registration/exit "
